@@ -66,7 +66,7 @@ func VerifC11_Histories() {
 				inForce = pub
 			}
 		} else {
-			err := w.repo.updateCRL("h-h-" + url1)
+			err := w.repo.updateCRL(idOfCDP(url1))
 			if err == nil {
 				verifrt.Assert(kind == 0, "only an acceptable list is taken in by a refresh")
 				inForce = pub
